@@ -102,6 +102,26 @@ pub fn generate(ctx: &mut Ctx) {
         }
         bi += 1;
     }
+    for h in ["[::1]", "[v1.a]", "[V1.a:b]", "example.org", "1.2.3.4", "a-b.c", ""] {
+        if ctx.mine(bi) {
+            for lower in [false, true] {
+                let e = gen::encode_all(h, lower);
+                ctx.run(Case::new("comp").arg(h).arg(&e).num(3));
+                ctx.run(Case::new("comp").arg(&e).arg(h).num(3));
+                ctx.run(Case::new("pair").arg(format!("s://u@{}:1/p", h)).arg(format!("s://u@{}:1/p", e)));
+                ctx.run(Case::new("pair").arg(format!("s://{}/p", e)).arg(format!("s://{}/p", h)));
+                ctx.run(Case::new("comp").arg(format!("u@{}", h)).arg(format!("%75@{}", e)).num(0));
+            }
+        }
+        bi += 1;
+    }
+    for (a, b) in [("s://h/p?a#z", "s://h/p?b#y"), ("s:p?d", "s:p#w"), ("s://h/p?a#z", "s://h/p?a#y"), ("s:/p?b#a", "s:/p?a#b"), ("//h?b#a", "//h?a#b")] {
+        if ctx.mine(bi) {
+            ctx.run(Case::new("pair").arg(a).arg(b));
+            ctx.run(Case::new("pair").arg(b).arg(a));
+        }
+        bi += 1;
+    }
     for (a, b) in [("http", "http"), ("http", "HTTP"), ("a", "b"), ("a+", "a-")] {
         if ctx.mine(bi) {
             ctx.run(Case::new("comp").arg(a).arg(b).num(7));
